@@ -54,6 +54,7 @@ type env struct {
 	valCtr   int
 	keyCtr   int
 	emptyPct int // share of empty values
+	maxConc  int // store option MaxConcurrency (size of the tx-holder pool: commits / replications in their precommit stage)
 
 	jitterOn atomic.Bool
 	jctr     atomic.Int64
@@ -124,7 +125,7 @@ func (e *env) yield(log string, k fsim.Kind) {
 func storeOpts(cfg stx.Cfg) *store.Options { return cfg.Options() }
 
 func (e *env) open() {
-	st, err := store.Open(e.dir, storeOpts(e.cfg).WithAppFactory(e.fs.Factory()))
+	st, err := store.Open(e.dir, storeOpts(e.cfg).WithMaxConcurrency(e.maxConc).WithAppFactory(e.fs.Factory()))
 	if err != nil {
 		e.failf("store.Open: %v", err)
 	}
@@ -495,24 +496,52 @@ func (e *env) loadByReplication(rt *rapid.T, window, total int) string {
 		}
 		src = append(src, &ltx{id: hdr.ID, hdr: hdr, entries: es, export: b})
 	}
-	// launch order
+	// launch order. A launched replicator whose predecessor is not launched yet waits inside its precommit and keeps
+	// a tx holder of the pool (MaxConcurrency holders): at most MaxConcurrency-1 may wait, one holder stays free for
+	// the lowest transaction not launched yet.
 	launched := make([]bool, total)
 	var order []int
 	lo := 0
+	waiting := func() int {
+		w := 0
+		for k := lo + 1; k < total; k++ {
+			if launched[k] {
+				w++
+			}
+		}
+		return w
+	}
 	for len(order) < total {
 		for lo < total && launched[lo] {
 			lo++
 		}
-		var cand []int
-		for k := lo; k < total && k < lo+window; k++ {
-			if !launched[k] {
-				cand = append(cand, k)
-			}
+		if lo == total {
+			break
 		}
-		// the farthest candidate half of the time (reversed blocks: later ids land before earlier ones), else any
-		pick := cand[len(cand)-1]
-		if rapid.Bool().Draw(rt, "launchAny") {
-			pick = cand[rapid.IntRange(0, len(cand)-1).Draw(rt, "launch")]
+		pick := lo
+		if waiting() < e.maxConc-1 {
+			var cand []int
+			for k := lo; k < total && k < lo+window; k++ {
+				if !launched[k] {
+					cand = append(cand, k)
+				}
+			}
+			// the farthest candidate half of the time (reversed blocks: later ids land before earlier ones), else any
+			pick = cand[len(cand)-1]
+			if rapid.Bool().Draw(rt, "launchAny") {
+				pick = cand[rapid.IntRange(0, len(cand)-1).Draw(rt, "launch")]
+			}
+			// now and then one replicator far ahead: its values land first, then a long run of lower ids overtakes it
+			// (farther than MaxConcurrency ids most of the time)
+			if rapid.IntRange(0, 2).Draw(rt, "launchFar") == 0 {
+				by := rapid.IntRange(2, 12).Draw(rt, "farBy")
+				if e.maxConc >= 12 && total-1-lo > e.maxConc && rapid.Bool().Draw(rt, "farBeyond") {
+					by = rapid.IntRange(e.maxConc+1, total-1-lo).Draw(rt, "farByBeyond")
+				}
+				if far := lo + by; far < total && !launched[far] {
+					pick = far
+				}
+			}
 		}
 		launched[pick] = true
 		order = append(order, pick)
@@ -538,8 +567,8 @@ func (e *env) loadByReplication(rt *rapid.T, window, total int) string {
 	}
 	for _, i := range order {
 		i := i
-		// at most `window`-1 replicators can be waiting for a predecessor that is not launched yet: 12 in flight never blocks the launcher
-		for inFlight >= 12 {
+		// never more calls in flight than the store has tx holders (fewer than all of them wait for a predecessor, so one always returns)
+		for inFlight >= min(12, e.maxConc) {
 			select {
 			case r := <-results:
 				take(r)
@@ -999,9 +1028,32 @@ func (e *env) outOfOrderAt(n uint64) bool {
 	return false
 }
 
+// farOutOfOrderAt: some tx with id > n+MaxConcurrency has its values before the values of a tx <= n in the same value log.
+func (e *env) farOutOfOrderAt(n uint64) bool {
+	e.mu.Lock()
+	defer e.mu.Unlock()
+	maxUpTo := map[byte]int64{}
+	for _, l := range e.led {
+		if l.id <= n && l.vlog != 0 && l.minOff > maxUpTo[l.vlog] {
+			maxUpTo[l.vlog] = l.minOff
+		}
+	}
+	for _, l := range e.led {
+		if l.id > n+uint64(e.maxConc) && l.vlog != 0 {
+			if mb, ok := maxUpTo[l.vlog]; ok && l.minOff < mb {
+				return true
+			}
+		}
+	}
+	return false
+}
+
 func (e *env) truncate(n uint64) {
 	before := e.chunkFiles()
 	ooo := e.outOfOrderAt(n)
+	if e.farOutOfOrderAt(n) {
+		e.c.Label("out-of-order-beyond-max-concurrency-at-cut")
+	}
 	err := e.st.TruncateUptoTx(n)
 	if err != nil {
 		e.failf("TruncateUptoTx(%d) with %d committed transactions: %v", n, e.n(), err)
@@ -1033,7 +1085,8 @@ func TestStoreTruncation(t *testing.T) {
 		e.fs = fsim.New(e.dir)
 		e.fs.Yield = e.yield
 		e.jtab = rapid.SliceOfN(rapid.SampledFrom([]int{0, 0, 0, 1, 1, 2, 3}), 16, 16).Draw(rt, "jitter")
-		c.Descf("cfg=%s", e.cfg)
+		e.maxConc = rapid.SampledFrom([]int{1, 2, 2, 3, 3, 30}).Draw(rt, "maxConcurrency")
+		c.Descf("cfg=%s maxConc=%d", e.cfg, e.maxConc)
 		e.open()
 		defer func() {
 			if e.st != nil && !e.wedged {
@@ -1052,6 +1105,7 @@ func TestStoreTruncation(t *testing.T) {
 			order := e.loadByReplication(rt, window, total)
 			c.Descf("replicate w=%d order=%s", window, order)
 		} else {
+			window = min(window, e.maxConc) // a commit beyond the holders of the pool is refused (ErrMaxConcurrencyLimitExceeded)
 			e.loadByCommitters(rt, window, total)
 			c.Descf("commit w=%d n=%d", window, total)
 		}
@@ -1066,9 +1120,20 @@ func TestStoreTruncation(t *testing.T) {
 			switch op {
 			case "truncate":
 				cutN := uint64(rapid.IntRange(1, int(n)).Draw(rt, "cut"))
-				switch rapid.IntRange(0, 5).Draw(rt, "cutBias") {
+				switch rapid.IntRange(0, 9).Draw(rt, "cutBias") {
 				case 0:
 					cutN = uint64(rapid.IntRange(int(n*2/3)+1, int(n)).Draw(rt, "cutH"))
+				case 4, 5, 6, 7:
+					// a cut below which lie the values of a transaction more than MaxConcurrency ids above it
+					var cand []uint64
+					for x := uint64(1); x <= n; x++ {
+						if e.farOutOfOrderAt(x) {
+							cand = append(cand, x)
+						}
+					}
+					if len(cand) > 0 {
+						cutN = cand[rapid.IntRange(0, len(cand)-1).Draw(rt, "cutFar")]
+					}
 				case 1, 2, 3:
 					// a cut at which some later transaction lies before an earlier one in a value log
 					var cand []uint64
@@ -1106,7 +1171,7 @@ func TestStoreTruncation(t *testing.T) {
 				e.verify("after out-of-range truncations")
 			case "commit":
 				k := rapid.IntRange(1, 5).Draw(rt, "more")
-				w := rapid.IntRange(1, 3).Draw(rt, "moreCommitters")
+				w := min(rapid.IntRange(1, 3).Draw(rt, "moreCommitters"), e.maxConc)
 				news, err := e.commitConcurrently(e.genPlans(rt, w, k))
 				if err != nil {
 					e.failf("commit: %v", err)
@@ -1151,6 +1216,7 @@ func TestStoreTruncation(t *testing.T) {
 
 		c.Descf("n=%d cut=%d", e.n(), e.cut)
 		c.Label(fmt.Sprintf("ioconc-%d", e.cfg.IOConc))
+		c.Label(fmt.Sprintf("maxconcurrency-%d", e.maxConc))
 		c.Label(fmt.Sprintf("filesize-%d", e.cfg.FileSize))
 		if e.cfg.Compression != appendable.NoCompression {
 			c.Label("compression")
@@ -1214,7 +1280,7 @@ func TestStoreTruncation(t *testing.T) {
 func (e *env) concurrentPhase(rt *rapid.T) {
 	n0 := e.n()
 	nTrunc := rapid.IntRange(1, 3).Draw(rt, "truncators")
-	nWriters := rapid.IntRange(0, 2).Draw(rt, "writers")
+	nWriters := min(rapid.IntRange(0, 2).Draw(rt, "writers"), e.maxConc)
 	nReaders := rapid.IntRange(0, 2).Draw(rt, "readers")
 	serialize := false
 	if e.cfg.IOConc > 1 && vk.Excluded(kfDeadlock) {
